@@ -240,18 +240,21 @@ class SRC:
             calloutParserMod = "calloutparsers." + name + "." + name
             if calloutParserMod in calloutParsers:
                 cls = calloutParsers[calloutParserMod]
-                if cls is None:
-                    # The module, which was previously checked, is not found.
-                    return
             else:
-                cls = importlib.import_module(calloutParserMod)
+                try:
+                    cls = importlib.import_module(calloutParserMod)
+                except ImportError:
+                    cls = None
                 calloutParsers[calloutParserMod] = cls
+            if cls is None:
+                # The module is not found.
+                return
 
             desc = cls.getMaintProcDesc(procName)
             if desc:
                 out["Description"] = json.loads(desc)
-        except:
-            calloutParsers[calloutParserMod] = None
+        except Exception:
+            # A failing callout parser only loses this description.
             pass
 
     def getCallouts(self, out: OrderedDict, config: Config):
